@@ -294,3 +294,11 @@ func verifSubst(item string, texts []string) string {
 	}
 	return item
 }
+
+// ZzParseString parses chord text the way cmd.parseText does, over the model reader
+// (harness support for other packages; overlay only).
+func ZzParseString(s string) (*ChordList, error) {
+	lex, _ := verifNewLexer([]rune(s))
+	_ = Parse(lex)
+	return lex.Result, lex.Err()
+}
